@@ -6,28 +6,51 @@ MANIFEST = {
     'text': 'Model Mistral.Engine (start / start_task / on_action_complete / refresh jobs / completion check / '
             'dispatcher with backlog / pause / resume / stop; join logic from Mistral.Join). Theorems: verdict_rule '
             '(final state = CANCELLED if any task cancelled, SUCCESS iff every ERROR task is handled, else ERROR), '
-            'next_tasks_rule, error_handled_iff (handled iff an on-error route fired), direct_join_gets_refresh (when a task '
-            'completes in a RUNNING workflow every join that directly succeeds it and has a row gets a pending '
-            'schedule-refresh operation in the same transaction: the core of the join wake-up protocol), '
-            'crash_only_in_refresh and '
-            'no_crash_on_acyclic_partial (no event can raise an undeclared error on an acyclic definition; the cyclic '
-            'case is the proved counter-witness C04.possibleRoute_full_fails). The tie is the `core` stream: for '
-            'generated data-free programs x result oracles x schedules (+pause/resume/stop) the committed rows and the '
-            'multiset of pending deliveries of the REAL engine equal the model after EVERY event. The liveness clause '
-            '("never left RUNNING with nothing pending") and "only declared error types escape" for programs with data '
-            'flow, guards over variables, failing expressions and engine commands are decided by the `engine` stream '
-            'monitors on the real engine (at quiescence every execution is final; every exception that escaped an entry '
-            'point, post-commit operation or scheduler job is classified), not by a theorem.',
+            'next_tasks_rule, error_handled_iff (handled iff an on-error route fired), direct_join_gets_refresh, '
+            'crash_only_in_refresh and no_crash_on_acyclic_partial (no event can raise an undeclared error on an acyclic '
+            'definition; the cyclic case is the proved counter-witness C04.possibleRoute_full_fails). LIVENESS CLAUSE '
+            '("never left RUNNING, or its tasks left waiting, with nothing pending") is now a theorem of the engine model, by '
+            'invariants over every event history (deliveries in any order, both results of every action, pause / resume / '
+            'stop at any point, no action lost at its executor - that is C20): live_inv_reachable (ALL definitions: every '
+            'IDLE execution has a start request in flight, every RUNNING execution an action in flight, a RUNNING '
+            'workflow whose executions are all completed has a completion check in flight), no_stuck_joinfree (every '
+            'definition without joins), no_stuck_acyclic_partial (joins all/one/N, forks, several activations: every acyclic '
+            'definition with unique names, satisfiable join: N, fired routes among the transitions; every WAITING join has '
+            'a wake-up in flight or a blocker of smaller rank - the forward walk of find_indirectly_affected_task_executions is '
+            'proved complete w.r.t. the backward recursion of _possible_route: affected_complete + waiting_verdict_blocked) for '
+            'the histories that stay in the class PausedClean (no re-opened join unfinished at a pause), '
+            'no_stuck_acyclic_nopause (all histories without pause), and no_stuck_acyclic_full_fails: outside the class the '
+            'statement is FALSE of the code (a join re-opened by Task.defer keeps processed=True; completing while PAUSED it is '
+            'never continued by resume; a later join waits for ever) - witness proved in Lean, replayed event by event on '
+            'the real engine (known finding, corpus/C01). Ties: the `core` stream (generated data-free programs x oracles x '
+            'schedules (+pause/resume/stop): committed rows and multiset of pending deliveries of the REAL engine equal the '
+            'model after EVERY event) and the new `live` stream (small acyclic definitions incl. partial joins with successors '
+            'and several activations x random schedules with pause/resume on the REAL engine, model followed event by event; '
+            'monitor: a quiescent real execution is never RUNNING; stuck runs are classified by the class predicate of the '
+            'theorem evaluated by the model on the recorded history). "Only declared error types escape" and the liveness of '
+            'programs with data flow, guards over variables, failing expressions and engine commands are decided by the '
+            '`engine` stream monitors on the real engine, not by a theorem.',
         'note': 'Expressions (YAQL/Jinja), data flow, policies, with-items, sub-workflows and reverse workflows are '
                 'outside Mistral.Engine. One event = one committed transaction (in-process atomicity via tx_lock); '
                 'multi-process sub-transaction interleavings are not exhibited. Seams replaced by recorders: post-commit '
-                'thread, RPC client, executor, scheduler dispatcher, clock, id generator.',
+                'thread, RPC client, executor, scheduler dispatcher, clock, id generator. Liveness theorems: hypotheses '
+                'namesUnique and joinsSatisfiable are what the validator guarantees; liveInGraph ties Spec.live to Spec.graph; '
+                'walkBudgetOK is an artefact of the MODEL (its walk has a fuel, python has none); acyclicity + recursion budget '
+                'as in no_crash_on_acyclic_partial (cyclic definitions can deadlock genuinely: t1 <-> t2 joins). The theorems '
+                'say a delivery is PENDING, not that an outside scheduler eventually delivers it (fairness is assumed); the '
+                'loss of an action at its executor is excluded (C20). Monitor-only for liveness: cyclic definitions, '
+                'histories outside PausedClean (known finding), everything outside the data-free engine core.',
 }
 RULE = ('stream core: data-free single-activation direct workflows (forks, all/partial joins, literal guards, '
         'task-defaults, failing actions) x oracles x random/fifo/lifo schedules (+ operator commands), model vs real '
         'after every event; stream engine: generated programs with data flow/guards/engine commands x oracles x '
         'schedules, monitors on the real traces; non-trivial = trace exercises a join, a guard, a handled error or '
-        'an engine command; distinct = distinct (definition, oracle, schedule seed, commands)')
+        'an engine command; distinct = distinct (definition, oracle, schedule seed, commands); stream live: corpus '
+        'of theorem counter-witnesses (model event lists replayed on the real engine) + small acyclic definitions '
+        '(<=5 tasks, joins all/one/N with successors, guards that do not fire, 30% with a non-join task activated more '
+        'than once) x oracle x random/fifo/lifo schedule x 0-2 pause/resume rounds on the real engine, model vs real '
+        'after every event, stuck monitor at quiescence; non-trivial = a join or an operator command; distinct = '
+        'distinct (definition, oracle, schedule seed, commands)')
 TRUSTED = ['harness seams (post-commit thread, RPC client, executor, scheduler dispatcher, clock, ids) replaced by recorders',
            'translate/states.py']
 LEAN_MODULES = ['Mistral.Props.C01']
@@ -39,6 +62,9 @@ def correspond(ctx):
                      + [{'n_programs': ctx.n(12, 400), 'mode': 'mixed'}] * 5)
     par.run_parallel(ctx, 'harness.engine_stream', 'run_chunk',
                      [{'n_programs': ctx.n(18, 500), 'props': ['C01'], 'mode': 'plain'}] * 14)
+    # liveness clause: theorem counter-witnesses replayed on the real engine + real runs with pause/resume on
+    # small acyclic definitions (partial joins with successors, several activations) followed by the model
+    par.run_parallel(ctx, 'harness.live_stream', 'run_chunk', [{'n_programs': ctx.n(12, 350)}] * 14)
 
 
 def search(ctx):
@@ -50,5 +76,9 @@ def search(ctx):
 
 
 def replay(ctx, rep):
+    if isinstance(rep.get('replay'), dict) and rep['replay'].get('stream') == 'live':
+        from harness import live_stream
+        live_stream.replay(ctx, rep)
+        return
     from harness import engine_stream
     engine_stream.replay(ctx, rep, ['C01'])
